@@ -105,14 +105,14 @@ theorem removeAbsent_spec (ks : List Nat) (s : St) (k : Nat) :
 
 theorem delayOn_frame {s s' : St} (h : Frame s s') : delayOn s' = delayOn s := by simp [delayOn, h.cfg]
 
-theorem absKey_remMap (s : St) (hd : NoDueRm s) (k : Nat) :
-    absKey s.epoch (remMap (delayOn s) s.epoch (s.key k)) = disSt (abs s) (failedOf s k) k := by
+theorem absKey_remMap (s : St) (k : Nat) :
+    absKey (remMap (delayOn s) s.epoch (s.key k)) = disSt (abs s) (failedOf s k) k := by
   cases hr : s.key k with
   | none => simp [remMap, absKey, disSt, st_abs, hr]
   | some r =>
     simp only [remMap, disSt, st_abs, hr]
     cases hdr : r.deferRemove with
-    | some e => simp [absKey, hdr, hd k r e hr hdr]
+    | some e => simp [absKey, hdr]
     | none =>
       have hdel : (abs s).delay = delayOn s := rfl
       simp only [Option.isSome_none, Bool.false_eq_true, if_false, absKey, hdr, hdel, failedOf, hr]
@@ -120,7 +120,7 @@ theorem absKey_remMap (s : St) (hd : NoDueRm s) (k : Nat) :
       · simp only [hc, if_true]
       · simp [hc, absKey, abs]
 
-theorem syncKeys_refines (s : St) (ks : List Nat) (restart : Bool) (hd : NoDueRm s) :
+theorem syncKeys_refines (s : St) (ks : List Nat) (restart : Bool) :
     abs (syncKeys s ks restart).1 = specStep (abs s) (failedOf s) (.syncKeys ks restart) := by
   unfold syncKeys
   simp only []
@@ -202,13 +202,13 @@ theorem syncKeys_refines (s : St) (ks : List Nat) (restart : Bool) (hd : NoDueRm
           simp only [absCore, absKey]
           cases hdr : r.deferRemove with
           | none => rfl
-          | some e => simp [hd k r e hr hdr]
+          | some e => simp []
       · simp only [hk, Bool.false_eq_true, if_false, ← absKey_core]
-        exact absKey_remMap s hd k
+        exact absKey_remMap s k
     · funext k
       by_cases hk : ks.contains k
       · have hk' : k ∈ ks := by simpa using hk
-        simp [hk', reqCtor, inSet_abs s hd, nctor_abs]
+        simp [hk', reqCtor, inSet_abs s, nctor_abs]
       · have hk' : k ∉ ks := by simpa using hk
         simp [hk', nctor_abs]
   · intro k
